@@ -44,6 +44,7 @@ def expand(node: Node):
         if reference.content not in ids:
             msg = f"ID not found for REFERENCE '{reference}'"
             raise ValueError(msg)
+    for reference in references:
         source_node = ids[reference.content]
         destination_node = reference.parent
         index = destination_node.children.index(reference)
